@@ -27,7 +27,7 @@ def generate(rng, tier, shard, nshards):
         G, _ = cfg_proj(g)
         base = {"sr": srn, "G": G, "names": names}
         if gi % 3 == 1:
-            base["pre"] = [rng.choice(["agenda", "treesum", "naive", "agenda_maxiter", "treesum_maxiter", "trim", "cnf"]) for _ in range(rng.randint(1, 2))]
+            base["pre"] = [rng.choice(["agenda", "treesum", "naive", "agenda_maxiter", "treesum_maxiter", "treesum_tol", "agenda_tol", "trim", "cnf"]) for _ in range(rng.randint(1, 2))]
             feat = feat + "+history"
         elif gi % 3 == 2 and len(G["rules"]) >= 2:
             base["late"] = rng.randint(1, len(G["rules"]) - 1)      # rules added after a first evaluation
